@@ -8,7 +8,9 @@ META = {
                    "branch condition (received MAC / bit, Delta, open_commitment, point validation, clmul correlation, literal range, zero "
                    "test); (R2.1c) every received commitment component is opened; (R2.3) received bits are only used after their MAC check; "
                    "(R2.6) consistency-critical labels use the verified broadcast and the echo layer is fail-closed; (R3) the completed await "
-                   "of each commit round dominates the creation of the reveal round and the revealed local is the committed one; (R4) every "
+                   "of each commit round dominates the creation of the reveal round and the revealed local is the committed one; (R3.bind-id) commitments whose openings are accepted through a symmetric fold "
+                   "with the own value (coin tossing, Pi_LaAND zero-sum) contain the id of the committing party as data and are opened against the "
+                   "sender's id; (R4) every "
                    "draw from / clone of a shared ChaCha20 generator is enumerated. Decides presence, placement and fail-closedness of the "
                    "checks for every index, party and history; does not decide their cryptographic soundness error.",
     "assumptions": [
@@ -31,6 +33,7 @@ def run(ctx, res):
     r3.rule_commit_components(S, res)
     r3.rule_order(S, res)
     r3.rule_commit_binding(S, res)
+    r3.rule_bind_id(S, res)
     r3.rule_coins(S, res)
     # the claimed check bit of the aShare round arrives with MACs under the recipients' keys and
     # must be MAC-checked before it selects d0/d1 (root of the C07 leak as well)
